@@ -92,9 +92,12 @@ def main():
     ap.add_argument("--keep", action="store_true")
     ap.add_argument("--build", action="store_true")
     ap.add_argument("--json")
+    ap.add_argument("--sample", type=int, default=0, help="run at most N entries (rotating with --seed)")
+    ap.add_argument("--seed", type=int, default=0)
     args = ap.parse_args()
     allres = []
     bad = 0
+    todo = []
     for c in args.corpus:
         for m in json.load(open(c)):
             m["_corpus"] = os.path.abspath(c)
@@ -102,6 +105,13 @@ def main():
                 continue
             if args.prop and args.prop not in m["props"]:
                 continue
+            todo.append(m)
+    if args.sample and len(todo) > args.sample:
+        # deterministic rotating window over the corpus: different seeds cover different entries
+        k = (args.seed * args.sample) % len(todo)
+        todo = (todo + todo)[k:k + args.sample]
+    for m in todo:
+        if True:
             r = run_one(m, args)
             allres.append(r)
             flag = "ok  " if r["ok"] else "MISS"
